@@ -42,6 +42,7 @@ PROPS = {
     "C17": dict(
         mc=[dict(tla="Tunnel_MC.tla", cfg="Tunnel_MC_dep.cfg", tier="quick", timeout=400, workers=8),
             dict(tla="Tunnel_MC.tla", cfg="Tunnel_MC_gate.cfg", tier="quick", timeout=400, workers=8),
+            dict(tla="Tunnel_MC.tla", cfg="Tunnel_MC_mindep.cfg", tier="quick", timeout=400, workers=8),
             dict(tla="Tunnel_MC.tla", cfg="Tunnel_MC_dep_deep.cfg", tier="thorough", timeout=1500, extra=["-coverage", "1"])],
         gen=dict(tla="Tunnel_Gen.tla", cfg="Tunnel_Gen_C17.cfg", depth=32, num=dict(quick=400, thorough=5000), timeout=900),
         drive=dict(family="tunnel", mode="c17", nrand=dict(quick=400, thorough=6000)),
